@@ -156,6 +156,6 @@ func TestVerifC02Establisher(t *testing.T) {
 			Workers:   rapid.IntRange(1, 4).Draw(t, "workers"),
 			Place:     rapid.SampledFrom(placements).Draw(t, "placement"),
 		}
-		runCase(rec, ec.build, ec.Place, 2, func() any { return ec }, tfail(t))
+		runCase(rec, ec.build, ec.Place, genVisibility().Draw(t, "reads"), 2, func() any { return ec }, tfail(t))
 	})
 }
